@@ -560,6 +560,58 @@ def rule_bodyscope(chk, prog, tier):
     r.exhaustive = False
 
 
+def rule_typedef_names(chk, prog, tier):
+    r = chk.rule('C16.h', 'in declaration specifiers an identifier is a typedef name only if it is visible as one AND no type specifier has been seen yet (6.7.8p3, 6.7.2p2): after a type specifier - a keyword, a struct/union/enum specifier, '
+                 'typeof or another typedef name - it is the declared identifier, so `T T;`, `int f(pt pt)`, `struct s T;` redeclare the name in an inner scope; an identifier that is not a typedef name ends the specifiers',
+                 floor=20, oracle='C11 6.7.8p3, 6.7.2p2')
+    fn = prog.require_func('declspecs', 'decl.c')
+    KW = {'int': 'TINT', 'long': 'TLONG', 'unsigned': 'TUNSIGNED', 'const': 'TCONST', 'static': 'TSTATIC', 'void': 'TVOID', '_Bool': 'TBOOL', 'double': 'TDOUBLE', 'volatile': 'TVOLATILE', 'typedef': 'TTYPEDEF'}
+    # (tokens, number of tokens the specifiers consist of, resulting type)   T, U: typedef names for long / struct; x: an ordinary identifier
+    CASES = [(['T', 'x'], 1, 'T'), (['T', 'T'], 1, 'T'), (['T', 'U'], 1, 'T'), (['U', 'T'], 1, 'U'), (['int', 'T'], 1, 'int'), (['unsigned', 'T'], 1, 'uint'), (['long', 'T'], 1, 'long'), (['void', 'T'], 1, 'void'),
+             (['_Bool', 'T'], 1, 'bool'), (['double', 'T'], 1, 'double'), (['const', 'T', 'x'], 2, 'T'), (['T', 'const', 'x'], 2, 'T'), (['const', 'T', 'T'], 2, 'T'), (['T', 'const', 'T'], 2, 'T'), (['static', 'T', 'T'], 2, 'T'),
+             (['T', 'static', 'U'], 2, 'T'), (['const', 'int', 'T'], 2, 'int'), (['int', 'const', 'T'], 2, 'int'), (['unsigned', 'long', 'T'], 2, 'ulong'), (['x', 'T'], 0, None), (['const', 'x'], 'error', None),
+             (['typedef', 'T', 'T'], 2, 'T'), (['typedef', 'int', 'T'], 2, 'int'), (['T', 'volatile', 'static', 'T'], 3, 'T'), (['S', 'T'], 1, 'S'), (['S', 'const', 'T'], 2, 'S')]
+    for toks_, want_n, want_t in CASES:
+        def runner(it):
+            w = World(prog, it=it, target='x86_64-sysv')
+            toks = list(toks_) + [';']
+            TT = w.t('short'); UT = w.mkstruct(size=8, align=4); ST = w.mkstruct(size=4, align=4)
+            def tdecl(t):
+                d = Obj('typedef', 'heap'); d.f.update({('kind',): ev(prog, 'DECLTYPE'), ('type',): t, ('qual',): 0, ('name',): None}); return Ptr(d, ())
+            decls = {'T': tdecl(TT), 'U': tdecl(UT)}
+            xd = Obj('object', 'heap'); xd.f.update({('kind',): ev(prog, 'DECLOBJECT'), ('type',): w.t('int'), ('qual',): 0, ('name',): None}); decls['x'] = Ptr(xd, ())
+            tokobj = it.gobj('tok'); st = {'i': 0}
+            def cur(): return toks[min(st['i'], len(toks) - 1)]
+            def load():
+                c = cur()
+                tokobj.f[('kind',)] = ev(prog, KW[c] if c in KW else 'TSTRUCT' if c == 'S' else 'TSEMICOLON' if c == ';' else 'TIDENT')
+                tokobj.f[('lit',)] = Ptr(it.mkstr(list(c.encode()), c), (0,)) if c in ('T', 'U', 'x') else None
+                tokobj.f[('loc', 'file')] = None; tokobj.f[('loc', 'line')] = 1; tokobj.f[('loc', 'col')] = 1
+            def nxt(i2, a, e): st['i'] += 1; load(); return None
+            def getdecl(i2, a, e): return decls.get(bytes(read_cstr(i2, a[1])).decode())
+            def tagspec(i2, a, e):
+                if cur() != 'S': raise Terminal('error', 'expected struct')
+                nxt(i2, a, e); return ST
+            it.models.update({'next': nxt, 'attr': lambda i2, a, e: 0, 'gnuattr': lambda i2, a, e: 0, 'scopegetdecl': getdecl, 'tagspec': tagspec,
+                              'fatal': lambda i2, a, e: (_ for _ in ()).throw(Terminal('fatal', a)), 'error': lambda i2, a, e: (_ for _ in ()).throw(Terminal('error', cmodel.fmt_of(i2, a, 1)))})
+            load()
+            sc = Obj('sc', 'local'); sc.f[()] = UNINIT; al = Obj('al', 'local'); al.f[()] = UNINIT
+            qt = it.call(fn, [Ptr(Obj('scope', 'heap'), ()), Ptr(sc, ()), None, Ptr(al, ())])
+            t = qt.f[('type',)]
+            names = {'T': TT, 'U': UT, 'S': ST, 'int': w.t('int'), 'uint': w.t('uint'), 'long': w.t('long'), 'ulong': w.t('ulong'), 'void': w.t('void'), 'bool': w.t('bool'), 'double': w.t('double')}
+            got = None if t is None else next((n for n in ('T', 'U', 'S', 'int', 'uint', 'ulong', 'void', 'bool', 'double', 'long') if names[n].obj is t.obj), 'other')
+            return st['i'], got
+        runs = explore(prog, runner, {}, max_runs=4, on_unsupported='keep')
+        key = 'typedef-name:%s' % ' '.join(toks_)
+        if len(runs) != 1 or runs[0].outcome not in ('return', 'terminal:error'):
+            raise AnalysisBroken('%s: %s' % (key, [(x.outcome, x.detail) for x in runs][:2]))
+        if want_n == 'error':
+            r.instance(runs[0].outcome == 'terminal:error', key, 'decl.c:%s' % fn.get('line'), 'no type specifier at all: must be diagnosed; cproc: %s' % (runs[0].value if runs[0].outcome == 'return' else runs[0].outcome,)); continue
+        r.instance(runs[0].outcome == 'return' and runs[0].value == (want_n, want_t), key, 'decl.c:%s' % fn.get('line'),
+                   'the specifiers are the first %d token(s) and denote %s (T: typedef short, U: typedef struct, x: an object); cproc: %s %s' % (want_n, want_t, runs[0].outcome, runs[0].value if runs[0].outcome == 'return' else runs[0].detail))
+    r.exhaustive = False
+
+
 def run(chk, tier):
     prog = facts.programs()['cproc-qbe']
     chk.guard('C16.a', lambda: rule_map(chk, prog, tier))
@@ -569,3 +621,4 @@ def run(chk, tier):
     chk.guard('C16.e', lambda: rule_tagshadow(chk, prog, tier))
     chk.guard('C16.f', lambda: rule_protoscope(chk, prog, tier))
     chk.guard('C16.g', lambda: rule_bodyscope(chk, prog, tier))
+    chk.guard('C16.h', lambda: rule_typedef_names(chk, prog, tier))
